@@ -19,7 +19,7 @@ CLAIMED = {
    note="Trusted: the simulated TCP/executor/job seams (sim/sim-*), the strict response parser and the connection model in harness/src/scen/httpgen.rs. Handlers act only through their return value; unbounded blocking pool.",
    technique="deterministic simulation: seeded scheduler over real server tasks + simulated TCP; sequential reference model as oracle"),
  "C05": dict(cat="exploration", sec="3 C05", engine="conn",
-   text="HttpConn methods called directly over the simulated socket: EVERY program of depth <= 3 (quick) / <= 4 (thorough) over 15 operations x 13 client scripts, plus sampled programs of depth 1-7 under interleaved delivery where client bytes are fed only when a call waits and clients withhold the body until they see 100 Continue (a lost interim response is a stall verdict). An explicit-state reference model predicts result, both protocol states, is_ready(), write-side shutdown and the wire bytes after every call.",
+   text="HttpConn methods called directly over the simulated socket: EVERY program of depth <= 4 (quick) / <= 5 (thorough) over 15 operations x 13 client scripts, plus sampled programs of depth 1-7 under interleaved delivery where client bytes are fed only when a call waits and clients withhold the body until they see 100 Continue (a lost interim response is a stall verdict). An explicit-state reference model predicts result, both protocol states, is_ready(), write-side shutdown and the wire bytes after every call.",
    note="Trusted: the reference model (written from the doc comments and the statement; cells the documentation leaves open are marked Free), simulated socket.",
    technique="deterministic simulation of the socket under enumerated + sampled API programs; explicit-state reference model checked call by call"),
  "C06": dict(cat="exploration", sec="3 C06", engine="stream",
